@@ -178,6 +178,9 @@ func (ri *RInterp) bounds(e ast.Expr, s S, ents map[ast.Expr]string) IBound {
 			}
 		}
 	case *ast.CallExpr:
+		if t := "ret@" + ri.at(x) + "#0"; rHasTerm(s, t) {
+			return ri.termFacts(t, s)
+		}
 		switch RCallName(info, x) {
 		case "Value.Len":
 			X := ri.entOf(x.Fun.(*ast.SelectorExpr).X, s, ents)
@@ -207,6 +210,14 @@ func (ri *RInterp) bounds(e ast.Expr, s S, ents map[ast.Expr]string) IBound {
 func rSetLb(s S, t string, v int64) S {
 	if cur := rGetInt(s, "lb:"+t); cur == nil || *cur < v {
 		s = rSetInt(s, "lb:"+t, v)
+		// t == u + off  (recorded at `t := u + off`): u >= v - off
+		if al := s.Get("al:" + t); al != "" {
+			if j := strings.LastIndexByte(al, '|'); j > 0 {
+				if off, err := strconv.ParseInt(al[j+1:], 10, 64); err == nil && rAddOK(v, -off) {
+					s = rSetLb(s, al[:j], v-off)
+				}
+			}
+		}
 	}
 	if v >= 0 {
 		for _, k := range s.Keys() {
@@ -340,8 +351,11 @@ func (ri *RInterp) killTerm(s S, id string) S {
 			return strings.Contains(a, idx)
 		case "ae":
 			return a == id || s.Get("ae:"+a) == "if:"+id || strings.HasPrefix(s.Get("ae:"+a), "if:"+id+".")
-		case "mK":
+		case "mK", "bv":
 			return a == id
+		case "al":
+			v := s.Get("al:" + a)
+			return covers(a) || v == id || strings.HasPrefix(v, id+"|") || strings.HasPrefix(v, id+".")
 		case "b":
 			if strings.Contains(s.Get("b:"+a), idx) {
 				rebind = append(rebind, a)
@@ -396,14 +410,23 @@ func (ri *RInterp) assignInt(s S, lhs ast.Expr, rhs ast.Expr, ents map[ast.Expr]
 		return s
 	}
 	var nb IBound
+	alias := ""
 	if rhs != nil {
-		if rt, off := ri.split(rhs); rt == t && off != 0 {
+		rt, off := ri.split(rhs)
+		if rt == t && off != 0 {
 			nb = ri.selfShift(s, t, off)
 		} else {
 			nb = ri.bounds(rhs, s, ents)
+			if rt != "" && rt != t {
+				alias = rt + "|" + strconv.FormatInt(off, 10)
+			}
 		}
 	}
-	return ri.store(s, t, nb)
+	s = ri.store(s, t, nb)
+	if alias != "" {
+		s = s.Set("al:"+t, alias)
+	}
+	return s
 }
 
 func (ri *RInterp) store(s S, t string, nb IBound) S {
